@@ -99,6 +99,7 @@ def check_space(ctx, sp, periodic, rng, quick, stats, maps=None):
                                   i, sp.key(), periodic, gotc, e, max([abs(a_ - b_) for a_, b_ in zip(vals, want)] or [float("nan")])),
                               {"space": sp.key(), "i": i, "periodic": periodic, "map": [a, h]})
         spline = spl.Spline1D(basis)
+        kept = []                    # arrays returned earlier by the same object: a later call must not write into them
         for name, c in coeff_vectors(sp, periodic, rng, 1 if quick else 3):
             spline.coeffs[:] = c
             cmax = max(1.0, max(abs(v) for v in c))
@@ -118,10 +119,15 @@ def check_space(ctx, sp, periodic, rng, quick, stats, maps=None):
                 got = {}
                 try:
                     got["Spline1D.eval(scalar)"] = [spline.eval(float(x), der) for x in xs]
-                    got["Spline1D.eval(array)"] = list(spline.eval(xs.copy(), der))
+                    ret = spline.eval(xs.copy(), der)
+                    kept.append((ret, np.array(ret, copy=True), "Spline1D.eval(array) der=%d coeffs %s" % (der, name)))
+                    got["Spline1D.eval(array)"] = list(ret)
                     y = np.full(len(xs), np.nan)
                     spline.eval_vector(xs.copy(), y, der)
                     got["Spline1D.eval_vector"] = list(y)
+                    buf = xs.copy()                         # in place: the points are replaced by the values
+                    spline.eval_vector(buf, buf, der)
+                    got["Spline1D.eval_vector(in place)"] = list(buf)
                     if sp.kind == "cu":
                         got["cu_eval_spline_1d_scalar"] = [cu.cu_eval_spline_1d_scalar(float(x), basis.knots, 3, spline.coeffs, der) for x in xs]
                     else:
@@ -145,6 +151,12 @@ def check_space(ctx, sp, periodic, rng, quick, stats, maps=None):
                                           {"space": sp.key(), "periodic": periodic, "map": [a, h], "coeffs": c, "x": x, "der": der, "entry": ep})
                             break
             ctx.count((sp.key(), periodic, a, h, name))
+        for ret, snap, what in kept:
+            if not np.array_equal(np.asarray(ret), snap, equal_nan=True):
+                ctx.violation({"kind": "returned-array-overwritten", "path": "cu" if sp.kind == "cu" else "general", "entry": "Spline1D.eval"},
+                              "the array returned by %s was changed by a later evaluation on the same spline (space %s)" % (what, sp.key()),
+                              {"space": sp.key(), "periodic": periodic, "map": [a, h]})
+                break
         # BSplines[i]: basis functions as splines (periodic: wrapped), non-negative, partition of unity
         try:
             tot = np.zeros(len(xs))
@@ -201,6 +213,7 @@ def check_2d(ctx, s1, p1, s2, p2, rng, stats):
     x2 = test_points(s2, -1.0, 2.0, rng, 1)[::2]
     q1 = [min(max(so.to_int_coord(x, 0.5, 0.25), Fr(s1.br[0])), Fr(s1.br[-1])) for x in x1]
     q2 = [min(max(so.to_int_coord(x, -1.0, 2.0), Fr(s2.br[0])), Fr(s2.br[-1])) for x in x2]
+    kept2 = []
     for d1 in (0, 1):
         for d2 in (0, 1):
             if (d1 and s1.p == 1) or (d2 and s2.p == 1):
@@ -210,12 +223,17 @@ def check_2d(ctx, s1, p1, s2, p2, rng, stats):
             want = B1 @ c @ B2.T
             try:
                 g1 = S.eval(np.array(x1), np.array(x2), d1, d2)
+                kept2.append((g1, np.array(g1, copy=True), (d1, d2)))
                 g2 = np.array([[S.eval(float(a), float(b), d1, d2) for b in x2] for a in x1])
                 g3 = np.full((len(x1), len(x2)), np.nan)
                 S.eval_vector(np.array(x1), np.array(x2), g3, d1, d2)
             except Exception as ex:
                 ctx.violation({"kind": "eval-raises", "path": "2d", "error": type(ex).__name__}, "Spline2D evaluation raised %s: %s" % (type(ex).__name__, ex),
                               {"spaces": [s1.key(), s2.key()]})
+                return
+            if not np.array_equal(S.coeffs, c):
+                ctx.violation({"kind": "coefficients-changed-by-evaluation", "path": "cu" if b1.cubic_uniform else "general"},
+                              "evaluating the 2-D spline changed its coefficients; spaces %s x %s" % (s1.key(), s2.key()), {"spaces": [s1.key(), s2.key()]})
                 return
             stats["evals"] += 3 * want.size
             for ep, g in (("Spline2D.eval(grid)", g1), ("Spline2D.eval(scalar)", g2), ("Spline2D.eval_vector", g3)):
@@ -224,6 +242,12 @@ def check_2d(ctx, s1, p1, s2, p2, rng, stats):
                     ctx.violation({"kind": "value-2d", "entry": ep.split("(")[0], "der": [d1, d2], "path": "cu" if b1.cubic_uniform else "general"},
                                   "%s (der %d,%d) differs from the exact tensor-product value by %g; spaces %s x %s" % (ep, d1, d2, err, s1.key(), s2.key()),
                                   {"spaces": [s1.key(), s2.key()], "coeffs": c.tolist(), "der": [d1, d2]})
+    for ret, snap, dd in kept2:
+        if not np.array_equal(np.asarray(ret), snap, equal_nan=True):
+            ctx.violation({"kind": "returned-array-overwritten", "path": "cu" if b1.cubic_uniform else "general", "entry": "Spline2D.eval"},
+                          "the array returned by Spline2D.eval(grid, der %s) was changed by a later evaluation on the same spline; spaces %s x %s" % (
+                              dd, s1.key(), s2.key()), {"spaces": [s1.key(), s2.key()]})
+            break
     # the point-wise 2-D kernels (x[i], y[i]) -> z[i], which no class method reaches: called directly, output array with stale contents
     from pygyro.splines import cubic_uniform_spline_eval_funcs as cuk
     n_ = min(len(x1), len(x2))
